@@ -170,10 +170,16 @@ def check(run: Run) -> None:
     # R6: `import pkg.sub` binds the module object to the attribute `sub` of the package, over whatever the package's own code bound to that name
     subs = sorted(m.name for m in run.src.mods.values() if m.name.startswith(MODULE + "."))
     run.ob("R6", f"submodules of {MODULE}: {len(subs)}")
+    def shadowed(sub_: str) -> bool:
+        return sub_[len(MODULE) + 1:].split(".")[0] in env.names
+
+    # positive fixture (the expected count on the tree is zero): a submodule named like the first constant must match
+    if not consts or not shadowed(f"{MODULE}.{sorted(consts)[0]}") or shadowed(f"{MODULE}._no_such_constant_"):
+        raise AnalysisError("C20/R6: the shadowing test no longer recognises its own fixture")
     for sub in subs:
         first = sub[len(MODULE) + 1:].split(".")[0]
         run.ob("R6", sub)
-        if first in env.names and first not in ("__init__", ):
+        if shadowed(sub):
             sm = run.src.mods[sub]
             run.violate("R6", f"{MODULE}:{first}:shadowed-by-submodule", sm, sm.tree,
                         f"the module {sub} has the name of `{MODULE}.{first}`: the first import of it rebinds that exported name to the module object, "
